@@ -90,8 +90,13 @@ func runProfile(j *core.Job, cc checkCfg) {
 				rep.Count("gate_build_failure", 1)
 			}
 			if len(rep.Violations) < maxViolationsPerWorker {
+				files := g.Files
+				if files == nil {
+					files = map[string]string{}
+				}
+				files["function"] = g.Source
 				doc := &CReplay{Property: cc.prop, Layer: "C", Kind: "gate", Seed: j.Seed, Batch: bn, Func: g.Func, Stage: g.Stage, Msg: g.Msg,
-					Class: "acceptance-gate " + g.Stage + ": " + firstLines(g.Msg, 1), Pkg: "p", Files: map[string]string{"function": g.Source}}
+					Class: "acceptance-gate " + g.Stage + ": " + firstLines(g.Msg, 1), Pkg: "p", Files: files}
 				path := ev.WriteReplay(cc.prop, int64(j.Seed), bn*1000+len(rep.Violations), doc)
 				rep.Violations = append(rep.Violations, ev.Violation{Prop: cc.prop, Class: doc.Class, Replay: path})
 			}
